@@ -164,6 +164,8 @@ func (m *recModel) r(d, outer int) (string, int) {
 
 var reInj = regexp.MustCompile(`INJ-(\d+)-`)
 
+var errRecCause = fmt.Errorf("the innermost cause")
+
 func runC13Recursive(env *sim.Env) {
 	t := env.Tape
 	if t.Choose(4) == 3 {
@@ -227,6 +229,10 @@ func runC13Recursive(env *sim.Env) {
 		vm.SetFunc("failif", func(a jet.Arguments) reflect.Value {
 			calls++
 			if fail[(calls-1)%40+1] {
+				if calls%2 == 1 {
+					// an error with a cause: what try binds to the catch variable is this error, not its cause
+					panic(fmt.Errorf("INJ-%d-: %w", calls, errRecCause))
+				}
 				panic(fmt.Errorf("INJ-%d-", calls))
 			}
 			return reflect.ValueOf("")
@@ -265,6 +271,54 @@ func runC13Recursive(env *sim.Env) {
 			firstOut = got
 		} else if got != firstOut {
 			env.Violate("no-trace-later", "later-execution-differs", "the same recursive program rendered %s the first and %s the second time\n%s", sim.Q(firstOut), sim.Q(got), desc)
+		}
+	}
+	// the destination fails at its k-th Write, for every k: a Write that fails loses its own bytes and,
+	// when the failure is reported, everything after it - it never ADDS output. In particular a try
+	// body that finished is not turned into a failed one by the delivery of its output failing.
+	if sh.loop == 1 && wantErr == 0 {
+		mk := func(failAt int) (string, error, *sim.Caught, int) {
+			calls := 0
+			vm := jet.VarMap{}
+			vm.Set("two", []int{0, 1})
+			vm.Set("dec", func(n int) int { return n - 1 })
+			vm.SetFunc("failif", func(a jet.Arguments) reflect.Value {
+				calls++
+				if fail[(calls-1)%40+1] {
+					panic(fmt.Errorf("INJ-%d-", calls))
+				}
+				return reflect.ValueOf("")
+			})
+			vm.SetFunc("errid", func(a jet.Arguments) reflect.Value {
+				if mm := reInj.FindStringSubmatch(fmt.Sprint(a.Get(0).Interface())); mm != nil {
+					return reflect.ValueOf("E" + mm[1])
+				}
+				return reflect.ValueOf("E?")
+			})
+			w := &SimWriter{FailAt: failAt}
+			var xerr error
+			pc := sim.Guard(func() { xerr = tm.Execute(w, vm, nil) })
+			pools.AbandonOutstanding()
+			return string(w.Buf), xerr, pc, w.Writes
+		}
+		out0, _, _, nW := mk(0)
+		for k := 1; k <= nW && k <= 30; k++ {
+			got, xerr, pc, _ := mk(k)
+			env.Event("recursive, write %d fails -> %q err=%v", k, got, xerr)
+			env.Stat("fault:writer_error", 1)
+			lcp := 0
+			for lcp < len(got) && lcp < len(out0) && got[lcp] == out0[lcp] {
+				lcp++
+			}
+			desc := fmt.Sprintf("program: %s\n%s\nfailing calls of failif(): %v", sh, describeFiles(files), sortedInts(fail, m.calls))
+			switch {
+			case pc != nil:
+				env.Violate("re-entrant-try", "writer-fault:panic", "the destination's Write %d fails: Execute panicked: %s\n%s", k, sim.Clip(pc.String(), 400), desc)
+			case xerr != nil && !strings.HasPrefix(out0, got):
+				env.Violate("re-entrant-try", "writer-fault:output-added", "the destination's Write %d fails and Execute reports %v: the writer holds %s, which is not a prefix of the undisturbed output %s\n%s", k, xerr, sim.Q(got), sim.Q(out0), desc)
+			case xerr == nil && !(len(got) <= len(out0) && strings.HasSuffix(out0, got[lcp:])):
+				env.Violate("re-entrant-try", "writer-fault:output-added", "the destination's Write %d fails (Execute returns nil): the writer holds %s, which is not the undisturbed output %s with the bytes of one Write missing\n%s", k, sim.Q(got), sim.Q(out0), desc)
+			}
 		}
 	}
 	poolStats(env, pools)
